@@ -937,6 +937,8 @@ def apply_edit(sc, pps, desc, edited, edit):
     describes: objects whose id is new are built and added, objects whose id vanished are removed, a changed traffic light
     offset is set; "translate" moves the lanelet network.  Trace_Codec checks alpha(edited objects) = Leaves(EditOf)."""
     import numpy as np
+    if edit == "none":
+        return
     if edit == "translate":
         sc.lanelet_network.translate_rotate(np.array(TRANSLATION), 0.0)
         return
@@ -964,10 +966,18 @@ def apply_edit(sc, pps, desc, edited, edit):
 
 
 def roundtrip(desc, d, fmt, reuse=None, edited=None):
+    import contextlib
+    import io
+    with contextlib.redirect_stdout(io.StringIO()):         # the writers print "Replace file ..." when they overwrite
+        return _roundtrip(desc, d, fmt, reuse, edited)
+
+
+def _roundtrip(desc, d, fmt, reuse=None, edited=None):
     """-> dict(orig=leaves of the objects at the time of the last write, back=leaves read back or None,
                exc="" | "write" | "read", why=exception summary, data=written bytes or None).
-    reuse = [{"edit", "w2"}]: write#1, edit the objects in place, write#2 with the SAME writer object (w2 = "scenario":
-    write_scenario_to_file); write#2 is read back.  Exceptions of gamma / alpha / apply_edit propagate (driver bugs)."""
+    reuse = [{"route", "edit", "w2", "first"}]; route "writer": write#1, edit the objects in place, write#2 with the SAME
+    writer object (w2 = "scenario": write_scenario_to_file), write#2 is read back; route "reader": write#1, a reader object
+    is bound to the path and opened once, the edited objects are written to the same path, the SAME reader opens again.  Exceptions of gamma / alpha / apply_edit propagate (driver bugs)."""
     use_repo()
     _quiet()
     from commonroad.common.file_reader import CommonRoadFileReader
@@ -982,19 +992,39 @@ def roundtrip(desc, d, fmt, reuse=None, edited=None):
             os.remove(p_)
     res = {"orig": None, "back": None, "exc": "", "why": "", "data": None}
     try:
+        route = reuse[0]["route"] if reuse else ""
+        header = lambda: _WriterHeader(sc, wkw) if wkw else None
+        new_writer = lambda: CommonRoadFileWriter(sc, pps, decimal_precision=d, file_format=ff, **wkw)
+        reader = None
         try:
-            writer = CommonRoadFileWriter(sc, pps, decimal_precision=d, file_format=ff, **wkw)
-            if reuse:
+            writer = new_writer()
+            if route == "writer":
                 writer.write_to_file(path1, OverwriteExistingFile.ALWAYS)
+            elif route == "reader":                       # write#1 goes to the path the reader object is bound to
+                writer.write_to_file(path, OverwriteExistingFile.ALWAYS)
         except Exception as ex:
-            res["orig"] = alpha(sc, pps, header_from=_WriterHeader(sc, wkw) if wkw else None)
+            res["orig"] = alpha(sc, pps, header_from=header())
             res["exc"], res["why"] = "write", _where(ex)
             return res
+        if route == "reader":
+            try:
+                reader = CommonRoadFileReader(path, file_format=ff)
+                if reuse[0]["first"] == "open":
+                    reader.open()
+                else:
+                    reader.open_lanelet_network()
+            except Exception as ex:
+                res["orig"] = alpha(sc, pps, header_from=header())
+                res["exc"], res["why"] = "read", _where(ex)
+                return res
+            writer = new_writer()                         # the rewrite is done by a fresh writer: only the READER is reused
         if reuse:
             apply_edit(sc, pps, desc, edited[0], reuse[0]["edit"])
-        res["orig"] = alpha(sc, pps, header_from=_WriterHeader(sc, wkw) if wkw else None)
+        res["orig"] = alpha(sc, pps, header_from=header())
         try:
-            if reuse and reuse[0]["w2"] == "scenario":
+            if route == "reader" and reuse[0]["edit"] == "none":
+                pass                                      # nothing rewritten: the second open() must agree with the file
+            elif reuse and reuse[0]["w2"] == "scenario":
                 writer.write_scenario_to_file(path, OverwriteExistingFile.ALWAYS)
             else:
                 writer.write_to_file(path, OverwriteExistingFile.ALWAYS)
@@ -1004,7 +1034,7 @@ def roundtrip(desc, d, fmt, reuse=None, edited=None):
             res["exc"], res["why"] = "write", _where(ex)
             return res
         try:
-            sc2, pps2 = CommonRoadFileReader(path, file_format=ff).open()
+            sc2, pps2 = (reader if reader is not None else CommonRoadFileReader(path, file_format=ff)).open()
         except Exception as ex:
             res["exc"], res["why"] = "read", _where(ex)
             return res
@@ -1021,7 +1051,7 @@ def roundtrip_event(case, fmt):
     reuse = case.get("reuse") or []
     r = roundtrip(desc, d, fmt, reuse, case.get("edited"))
     back = project(r["orig"], r["back"], d) if r["back"] is not None else []
-    sig = fmt + ("@reused-writer" if reuse else "")               # the clause names the leaf; sig the setting ...
+    sig = fmt + ("@reused-%s" % reuse[0]["route"] if reuse else "")   # the clause names the leaf; sig the setting ...
     if r["exc"]:
         sig += "/" + r["why"]                                     # ... and the cause of a crash
     return {"op": "xml_roundtrip" if fmt == "xml" else "pb_roundtrip", "sig": sig, "d": d, "desc": desc, "reuse": reuse,
@@ -1032,9 +1062,9 @@ def xsd_case_event(case):
     """None when the writer produced no document (a crash of the writer is C01's clause Total/write, not C03's)"""
     reuse = case.get("reuse") or []
     r = roundtrip(case["desc"], case["d"], "xml", reuse, case.get("edited"))
-    if r["exc"] == "write":
+    if r["exc"] == "write" or r.get("data") is None:       # (also: the run stopped before the document to validate was written)
         return None
-    sig = "xsd" + ("@reused-writer" if reuse else "")
+    sig = "xsd" + ("@reused-%s" % reuse[0]["route"] if reuse else "")
     ev = xsd_event(r["data"], sig, "ok" if r["exc"] == "" else "exc")
     if r["exc"]:
         ev["sig"] = "%s/%s" % (sig, r["why"])
